@@ -81,6 +81,22 @@ def gen_mesh_struct(rng, small=False):
          "verts": [[rand_frac(rng) for _ in range(dim)] for _ in range(nv)],
          "topo": {d: [tuple(rng.randrange(nv) for _ in range(nverts(shape, d))) for _ in range(sizes[d])]
                   for d in range(1, dim + 1)}}
+    # charts of the modelled kinds: Circle (2D), Sphere (3D)
+    charts = []
+    if dim in (2, 3):
+        cnames = set()
+        for _ in range(rng.choice([0, 0, 1, 2])):
+            cn = rand_name(rng, allow_odd=False)
+            if cn in cnames:
+                continue
+            cnames.add(cn)
+            radius = Fraction(rng.randrange(1, 5000), rng.choice([1, 10, 1000]))
+            mid = [rand_frac(rng) for _ in range(dim)]
+            dom = None
+            if dim == 2 and rng.random() < 0.5:
+                l = rand_frac(rng)
+                dom = (l, l + Fraction(rng.randrange(1, 50), rng.choice([1, 4, 10])))
+            charts.append({"name": cn, "radius": radius, "mid": mid, "dom": dom})
     parts = []
     names = set()
     for _ in range(rng.choice([0, 0, 1, 1, 2, 3])):
@@ -88,6 +104,9 @@ def gen_mesh_struct(rng, small=False):
         if nm in names:
             continue
         names.add(nm)
+        if has_mesh and rng.random() < (0.1 if small else 0.25):
+            parts.append(gen_parent_part(rng, nm, m, shape, dim, charts))
+            continue
         topo_type = rng.choice(["none", "none", "full"])
         nsz = rng.randrange(1, dim + 2)          # how many size entries are given in the file
         psz = [rng.choice([0, 1, 2, 3]) for _ in range(nsz)] + [0] * (dim + 1 - nsz)
@@ -95,7 +114,7 @@ def gen_mesh_struct(rng, small=False):
              # target indices must be entity indices of the root mesh (MeshNodeLinker validates them); without a
              # root mesh in the file nothing can be validated
              "maps": {d: [rng.randrange(0, sizes[d] if has_mesh else 12) for _ in range(psz[d])] for d in range(dim + 1)},
-             "topo": {}, "attrs": []}
+             "topo": {}, "attrs": [], "chart": rng.choice(charts)["name"] if charts and rng.random() < 0.4 else None}
         if topo_type == "full":
             # no interior zero count below a non-zero one (defect class 6)
             for d in range(1, dim):
@@ -130,7 +149,31 @@ def gen_mesh_struct(rng, small=False):
         patches = {r: elems[a:b] for r, a, b in zip(ranks, [0] + cuts, cuts + [ne])}
         partitions.append({"name": rng.choice(["", rand_name(rng)]), "prio": rng.choice([None, 0, 1, -3, 17]),
                            "level": rng.choice([None, 0, 1, 4]), "nr": nr, "ne": ne, "ranks": ranks, "patches": patches})
-    return {"mesh": m if has_mesh else None, "shape": shape, "dim": dim, "parts": parts, "partitions": partitions}
+    return {"mesh": m if has_mesh else None, "shape": shape, "dim": dim, "parts": parts, "partitions": partitions,
+            "charts": charts}
+
+
+def gen_parent_part(rng, nm, m, shape, dim, charts):
+    """a `topology="parent"` mesh part: cells of dimensions 1..k of the root mesh and ALL their vertices (in any order);
+    the topology the reader must deduct is the parent's index tuples renumbered by the position in the vertex mapping"""
+    k = rng.randrange(0, dim + 1)
+    maps = {d: [] for d in range(dim + 1)}
+    used = set()
+    for d in range(1, k + 1):
+        maps[d] = [rng.randrange(m["sizes"][d]) for _ in range(rng.choice([1, 1, 2, 3]))]
+        for c in maps[d]:
+            used |= set(m["topo"][d][c])
+    extra = [v for v in range(m["sizes"][0]) if v not in used and rng.random() < 0.3]
+    vmap = list(used) + extra
+    if not vmap:
+        vmap = [rng.randrange(m["sizes"][0])]
+    rng.shuffle(vmap)
+    maps[0] = vmap
+    pos = {v: i for i, v in enumerate(vmap)}
+    topo = {d: [tuple(pos[v] for v in m["topo"][d][c]) for c in maps[d]] for d in range(1, dim + 1)}
+    psz = [len(maps[d]) for d in range(dim + 1)]
+    return {"name": nm, "topo_type": "parent", "nsz": dim + 1, "sizes": psz, "maps": maps, "topo": topo, "attrs": [],
+            "chart": rng.choice(charts)["name"] if charts and rng.random() < 0.4 else None}
 
 
 def show_frac_file(rng, fr):
@@ -225,7 +268,8 @@ def print_mesh_file(rng, st, fancy=True):
             L.add("info", "</b>")
         L.add("info-close", "</Info>")
     st["ps_order"] = []
-    order = ["mesh"] + ["part%d" % i for i in range(len(st["parts"]))] + ["ps%d" % i for i in range(len(st["partitions"]))]
+    order = ["chart%d" % i for i in range(len(st.get("charts", [])))] + ["mesh"] + \
+        ["part%d" % i for i in range(len(st["parts"]))] + ["ps%d" % i for i in range(len(st["partitions"]))]
     if fancy and rng.random() < 0.3:
         rng.shuffle(order)
 
@@ -238,7 +282,23 @@ def print_mesh_file(rng, st, fancy=True):
         L.add("topo-close", "</Topology>")
 
     for what in order:
-        if what == "mesh":
+        if what.startswith("chart"):
+            c = st["charts"][int(what[5:])]
+            num = lambda x: show_frac_file(rng, x) if fancy else vlib.frac_str(x)
+            L.add("chart-open", markup(rng, fancy, "Chart", [("name", c["name"])]))
+            L.ind += 2
+            attrs = [("radius", num(c["radius"])), ("midpoint", sep(rng, fancy).join(num(x) for x in c["mid"]))]
+            if c["dom"] is not None:
+                attrs.append(("domain", sep(rng, fancy).join(num(x) for x in c["dom"])))
+            kind = "Circle" if dim == 2 else "Sphere"
+            if fancy and rng.random() < 0.3:
+                L.add("chart-item-open", markup(rng, fancy, kind, attrs))
+                L.add("chart-item-close", "</%s>" % kind)
+            else:
+                L.add("chart-item", markup(rng, fancy, kind, attrs, closed=True))
+            L.ind -= 2
+            L.add("chart-close", "</Chart>")
+        elif what == "mesh":
             m = st["mesh"]
             if m is None:
                 continue
@@ -263,6 +323,8 @@ def print_mesh_file(rng, st, fancy=True):
             p = st["parts"][int(what[4:])]
             attrs = [("name", p["name"]), ("parent", "root"), ("topology", p["topo_type"]),
                      ("size", " ".join(map(str, p["sizes"][:p["nsz"]])))]
+            if p.get("chart"):
+                attrs.append(("chart", p["chart"]))
             L.add("part-open", markup(rng, fancy, "MeshPart", attrs))
             L.ind += 2
             blocks = [("m", d) for d in range(dim + 1) if p["sizes"][d] > 0 or (fancy and rng.random() < 0.3)]
@@ -347,7 +409,7 @@ def expected_dump(st):
     parts = sorted(st["parts"], key=lambda p: p["name"].encode("latin-1"))
     o.append("NP %d" % len(parts))
     for p in parts:
-        o.append("P %s x %d %s MAP" % (hx(p["name"]), 1 if p["topo_type"] != "none" else 0, " ".join(map(str, p["sizes"]))))
+        o.append("P %s %s %d %s MAP" % (hx(p["name"]), hx(p.get("chart") or ""), 1 if p["topo_type"] != "none" else 0, " ".join(map(str, p["sizes"]))))
         for d in range(dim + 1):
             o.append(" ".join(map(str, [len(p["maps"][d])] + p["maps"][d])))
         if p["topo_type"] != "none":
@@ -366,7 +428,9 @@ def expected_dump(st):
         for r in range(q["nr"]):
             el = sorted(set(q["patches"].get(r, [])))
             o.append(" ".join(map(str, [len(el)] + el)))
-    o.append("NC 0")
+    cs = sorted(st.get("charts", []), key=lambda c: c["name"].encode("latin-1"))
+    o.append("NC %d" % len(cs))
+    o += [hx(c["name"]) for c in cs]
     return " ".join(" ".join(o).split())
 
 
@@ -391,10 +455,15 @@ def join_tag(e, classes):
     return e + ("K" + classes if classes else "")
 
 
-def add_recognised(tag, text):
+def add_recognised(tag, text, valid=False):
     e, cl = split_tag(tag)
     hz = hazardous(text)
-    return join_tag(e, cl + (hz[1:] if hz else ""))
+    cl = cl + (hz[1:] if hz else "")
+    # a mutated file with a topology="parent" part may refer to parent vertices outside the part (class C = K11);
+    # files printed by the valid generator contain all vertices of their cells by construction
+    if not valid and has_parent_topology(text):
+        cl += "C"
+    return join_tag(e, cl)
 
 
 CONTENT_ROLES = ("vert-line", "topo-line", "map-line", "attr-line", "patch-line")
@@ -460,7 +529,7 @@ def mutate(rng, L, st):
     lines = list(L.l)
     idx_of = lambda roles: [i for i, (r, _) in enumerate(lines) if r in roles]
     kinds = ["truncate", "del-line", "dup-line", "count", "index-bound", "dim", "tokens", "number", "xml", "bytes",
-             "bytes", "tokmut", "attr", "swap-lines", "closed", "del-block", "del-block", "huge-count"]
+             "bytes", "tokmut", "attr", "swap-lines", "closed", "del-block", "del-block", "huge-count", "chart", "parent-vertex"]
     kind = rng.choice(kinds)
     tag = "U"
     text = None
@@ -473,6 +542,64 @@ def mutate(rng, L, st):
         # complete up to and including '>' of the root terminator (trailing blanks are irrelevant)
         closing_gt = "\n".join(t for _, t in lines[:rc + 1]).rstrip(" \t\r")
         tag = "R" if cut < len(closing_gt) else "A"
+    elif kind == "chart":
+        # malformed chart input (by construction): wrong number of coordinates, bad radius, empty chart, duplicate
+        # name, dangling chart reference of a mesh part
+        co = idx_of(("chart-open",))
+        if co:
+            i = rng.choice(co)
+            j = i
+            while lines[j][0] != "chart-close":
+                j += 1
+            items = [k for k in range(i, j) if lines[k][0] in ("chart-item", "chart-item-open")]
+            which = rng.choice(["midpoint", "radius", "empty", "dup", "rename", "content", "domain"])
+            k = items[0]
+            role, t = lines[k]
+            if which == "midpoint":
+                m = re.search(r'(midpoint\s*=\s*"\s*)([^"]*?)(\s*")', t)
+                toks = m.group(2).split()
+                toks = toks[:-1] if rng.random() < 0.5 else toks + ["1"]
+                lines[k] = (role, t[:m.start(2)] + " ".join(toks) + t[m.end(2):]); tag = "R"
+            elif which == "radius":
+                m = re.search(r'(radius\s*=\s*"\s*)([^"]*?)(\s*")', t)
+                lines[k] = (role, t[:m.start(2)] + rng.choice(["abc", "1x", "0", "-1", "0.000001", "1 2", ""]) + t[m.end(2):]); tag = "R"
+            elif which == "domain" and "domain" in t:
+                m = re.search(r'(domain\s*=\s*"\s*)([^"]*?)(\s*")', t)
+                lines[k] = (role, t[:m.start(2)] + rng.choice(["1", "1 2 3", "a b", ""]) + t[m.end(2):]); tag = "R"
+            elif which == "empty":
+                del lines[i + 1:j]; tag = "R"
+            elif which == "dup":
+                lines[j + 1:j + 1] = lines[i:j + 1]; tag = "R"
+            elif which == "content":
+                lines.insert(j, ("chart-content", "0 1")); tag = "R"
+            elif which == "rename":
+                m = re.search(r'(name\s*=\s*"\s*)([^"]*?)(\s*")', lines[i][1])
+                old = m.group(2)
+                used = any(r2 == "part-open" and re.search(r'chart\s*=\s*"\s*' + re.escape(old) + r'\s*"', t2) for r2, t2 in lines)
+                others = [re.search(r'name\s*=\s*"\s*([^"]*?)\s*"', lines[c][1]).group(1) for c in co if c != i]
+                if (old + "Z") not in others:
+                    lines[i] = (lines[i][0], lines[i][1][:m.start(2)] + old + "Z" + lines[i][1][m.end(2):])
+                    tag = "R" if used else "U"       # a mesh part now refers to a chart that does not exist
+    elif kind == "parent-vertex":
+        # K11 by construction: replace a vertex that a cell of a topology="parent" part needs by one it does not have
+        cand = [q for q in st["parts"] if q["topo_type"] == "parent" and any(q["maps"][d] for d in range(1, st["dim"] + 1))]
+        if cand and st["mesh"] is not None:
+            q = rng.choice(cand)
+            m = st["mesh"]
+            used = sorted({v for d in range(1, st["dim"] + 1) for c in q["maps"][d] for v in m["topo"][d][c]})
+            free = [v for v in range(m["sizes"][0]) if v not in q["maps"][0]]
+            po = [i for i, (r2, t2) in enumerate(lines) if r2 == "part-open" and
+                  re.search(r'name\s*=\s*"\s*' + re.escape(q["name"]) + r'\s*"', t2)]
+            if used and free and po:
+                v = rng.choice(used)
+                pos = q["maps"][0].index(v)
+                i = po[0]
+                while not (lines[i][0] == "map-open" and re.search(r'dim\s*=\s*"\s*0\s*"', lines[i][1])):
+                    i += 1
+                ml = [k for k in range(i + 1, len(lines)) if lines[k][0] in ("map-line", "map-close")]
+                ml = ml[:[lines[k][0] for k in ml].index("map-close")]
+                lines[ml[pos]] = ("map-line", str(rng.choice(free)))
+                tag = "RKC"
     elif kind == "huge-count":
         c = idx_of(("mesh-open", "part-open", "topo-open", "map-open", "attr-open", "ps-open", "patch-open"))
         i = rng.choice(c) if c else 0
@@ -653,7 +780,8 @@ def mutate(rng, L, st):
             m = list(re.finditer(r'\s(\w+)\s*=\s*"[^"]*"', t))
             if m:
                 mm = rng.choice(m)
-                optional = mm.group(1) in ("mesh", "chart", "name", "priority", "level") and role in ("root", "ps-open")
+                optional = (mm.group(1) in ("mesh", "name", "priority", "level") and role in ("root", "ps-open")) or \
+                    (mm.group(1) == "chart" and role == "part-open") or (mm.group(1) == "domain")
                 lines[i] = (role, t[:mm.start()] + t[mm.end():])
                 tag = "U" if optional else "R"
         elif which == "dup":
@@ -995,7 +1123,7 @@ def outcome_class(out):
         return "ok"
     if out.startswith("ERR "):
         return out.split()[1]
-    if out.startswith("NOTYPE") or out.startswith("QTRANS"):
+    if out.startswith("NOTYPE") or out.startswith("QTRANS") or out.startswith("NA"):
         return "notype"
     h = out.split(":")[0]
     if h == "SANITIZER":
@@ -1020,9 +1148,13 @@ K_KINDS = {
     # class 1 attached BY CONSTRUCTION (the mutator replaced a count / dimension / rank token by a huge number):
     # besides crashing, the value may simply be stored
     "B": ("abort", "timeout", "other-exception", "sanitizer-asan", "sanitizer-ubsan", "accepted", "rterr", "rtdiff"),
+    # K11: deduct_topology stores an out-of-bounds sentinel for a parent vertex that is not in the part
+    "C": ("sanitizer-asan", "abort", "rterr", "accepted"),
+    # K12: a topology="parent" part with an entity count of zero below a non-zero one (the K6 fix covers "full" only)
+    "D": ("rterr",),
 }
-K_ORDER = "B1"
-K_NAME = {"B": "1"}
+K_ORDER = "B1CD"
+K_NAME = {"B": "1", "C": "11", "D": "12"}
 
 
 def first_content_line(text):
@@ -1363,6 +1495,8 @@ def oracle(case, out):
 def canon(out):
     # abnormal terminations: compare on the class only
     h = out.split(":")[0]
+    if out.startswith("UNMODELLED") or out.startswith("ABORT:Q:_division_by_zero"):
+        return "NA"          # not modelled chart kind / degenerate circle domain in exact arithmetic
     if out.startswith("ABORT:Q:_transcendental"):
         return "QTRANS"      # harness limitation: the chart needs sin/cos at parse time, not available in exact arithmetic
     if h == "SANITIZER":
@@ -1430,10 +1564,9 @@ def model_filter(case):
         # not modelled (tier B)
         if split_tag(t[1])[1]:
             return False        # huge declared counts: allocation failures are not modelled
-        if has_parent_topology(unhx(t[2])):
-            return False
-        if "<Chart" in unhx(t[2]):
-            return False
+
+        if re.search(r"<\s*(Bezier|SurfaceMesh|Extrude)\b", unhx(t[2]).translate({7: 32, 8: 32})):
+            return False        # chart kinds that are not modelled
     return True
 
 
@@ -1471,6 +1604,24 @@ def corpus_cases():
         ("R", H + M + part(mp0 + '<Mapping dim="2">\n1\n</Mapping>\n', 'topology="none" size="2 0 1"') + E, LE),
         ("A", H + M + part(mp0 + '<Mapping dim="2">\n0\n</Mapping>\n', 'topology="none" size="2 0 1"') + E, None),
         ("A", H + part('<Mapping dim="0">\n0\n400\n</Mapping>\n') + E, None),     # no root mesh: nothing to validate
+        # topology="parent": complete vertex set (valid) / K11 (open): an edge whose vertices are not in the part
+        ("A", H + M + part('<Mapping dim="0">\n1\n0\n</Mapping>\n<Mapping dim="1">\n0\n</Mapping>\n', 'topology="parent" size="2 1"') + E, None),
+        ("RKC", H + M + part('<Mapping dim="0">\n0\n1\n</Mapping>\n<Mapping dim="1">\n1\n</Mapping>\n', 'topology="parent" size="2 1"') + E, None),
+        ("RKC", H + M + part('<Mapping dim="0">\n0\n1\n</Mapping>\n<Mapping dim="1">\n0\n</Mapping>\n<Mapping dim="2">\n0\n</Mapping>\n',
+                             'topology="parent" size="2 1 1"') + E, None),
+        # K12 (open): parent part without edges but with a cell: accepted, the writer's output is rejected
+        ("UKD", H + M + part('<Mapping dim="0">\n0\n1\n2\n3\n</Mapping>\n<Mapping dim="2">\n0\n</Mapping>\n',
+                             'topology="parent" size="4 0 1"') + E, None),
+        # charts: Circle with / without domain (2D), wrong kinds and malformed attributes
+        ("A", H + '<Chart name="c">\n<Circle radius="0.5" midpoint="1 2" domain="0 4" >\n</Circle>\n</Chart>\n' + M + E, None),
+        ("R", H + '<Chart name="c">\n<Sphere radius="0.5" midpoint="1 2 3" />\n</Chart>\n' + M + E, GE),
+        ("R", H + '<Chart name="c">\n<Circle radius="0.000001" midpoint="1 2" />\n</Chart>\n' + M + E, GE),
+        ("R", H + '<Chart name="c">\n<Circle radius="1" midpoint="1 2 3" />\n</Chart>\n' + M + E, GE),
+        ("R", H + '<Chart name="c">\n<Circle radius="1" midpoint="1 2" domain="0" />\n</Chart>\n' + M + E, GE),
+        ("R", H + '<Chart name="c">\n<Circle radius="1x" midpoint="1 2" />\n</Chart>\n' + M + E, GE),
+        ("R", H + '<Chart name="c">\n</Chart>\n' + M + E, GE),
+        ("R", H + '<Chart name="">\n<Circle radius="1" midpoint="1 2" />\n</Chart>\n' + M + E, GE),
+        ("R", H + '<Chart name="c">\n<Circle radius="1" midpoint="1 2" />\n0 1\n</Chart>\n' + M + E, GE),
         ("R", H + M + part('<Mapping dim="0">\n-1\n</Mapping>\n', 'topology="none" size="1"') + E, CE),
         # former K5: numbers with trailing characters
         ("R", H + M.replace("0 1 2 3\n", "0 1 2 3x\n") + E, CE),
@@ -1625,7 +1776,7 @@ def main(argv):
         st = gen_mesh_struct(rng)
         L = print_mesh_file(rng, st, fancy=(i % 4 != 0))
         text = L.text()
-        case = "mesh %s %s" % (add_recognised("A", text), hx(text))
+        case = "mesh %s %s" % (add_recognised("A", text, valid=True), hx(text))
         EXPECT[case] = expected_dump(st)
         valid.append(case)
         texts.append(text)
@@ -1673,7 +1824,7 @@ def main(argv):
     rc = vlib.run_pipeline(PROP, args.tier, args.seed, lean, streams, t0, assumptions=[
         "Index modelled as 64-bit unsigned via explicit wrap in the number reader; int as 32-bit",
         "coordinate I/O is the exact scalar's (harness/c11/q_io.hpp) - libc double formatting is not exercised",
-        "charts are not modelled (tier B): files with <Chart> are judged by the oracle only",
+        "Bezier / SurfaceMesh / Extrude charts are not modelled: such files are judged by the oracle only",
         "memory safety / termination are observed (ASan+UBSan, 10 s watchdog), not proved"],
         extra_cov={"rule": rule, "c11_stats": STATS})
     tot = max(1, STATS["malformed_total"])
